@@ -437,6 +437,9 @@ class C18(FrpProp):
 HEAP_PROFILE = Profile(p_keep=0.3, w=W(once=0, map_s=0, map_sl=0, sloop=4, cloop=4, accum=5, collect=4, defer=3, split=3, gate=4, value=4, updates=4, lift=8,
                            map_c=6), p_mem=0.5, p_unlisten=0.3, weak=0.3, final_teardown=True, n_defs=(4, 12), n_txn=(3, 8),
                        p_sample=0.1)
+HEAP_LAZY_PROFILE = Profile(w=W(once=0, map_s=0, map_sl=0, sloop=3, cloop=5, accum=4, collect=3, gate=3, value=4, updates=3, lift=8,
+                                map_c=8, hold_lazy=6, accum_lazy=4), p_mem=0.5, p_unlisten=0.3, weak=0.2, final_teardown=True,
+                            n_defs=(4, 12), n_txn=(3, 8), p_sample=0.2, p_lazy=0.5)
 _HROW = re.compile(r"^(\d+):(.*):(\d):(\d+):(\d+):([\d.]*)$")
 
 
@@ -494,7 +497,8 @@ class GcBacked(FrpProp):
         for b in FrpProp.batches(self, tier, seed):
             yield b
         n = 1500 if tier == "quick" else 30000
-        yield Batch("frp-heap", gen_scripts(int(seed), n, HEAP_PROFILE, "heap"), "heap model vs real heap")
+        yield Batch("frp-heap", gen_scripts(int(seed), n, HEAP_PROFILE, "heap") +
+                    gen_scripts(int(seed), n // 3, HEAP_LAZY_PROFILE, "heapz"), "heap model vs real heap")
         from .gcprops import gen
         n = 4000 if tier == "quick" else 60000
         rs = []
